@@ -21,6 +21,16 @@ CHECKS = {
    "Same exploration as C01; for every request that no endpoint matches: 404 iff no method is served for that path at that version, else 405 with Allow == exactly the served methods.",
    "trusted: RefMatcher/RefRange; 'no handler runs' holds by construction at the lookup seam (an Err carries no handler) and is re-checked live by the C01 live slice when built",
    "DESIGN.md section 4/C04"),
+ "C03": ("E2", "exploration",
+   "bounded-exhaustive enumeration of request paths (all sequences of <=3 segment atoms x all slash-multiplicity variants; every byte / two-byte (thorough: three-byte) percent-encoded form) through the real lookup_route against RefPath+RefMatcher",
+   "Complete enumeration of the stated finite path domains; every path's real outcome (endpoint + variables / status) equals the reference's, all spellings of one slash class agree, nothing delivered is '.', '..' or empty.",
+   "trusted: RefPath (split, decode once, malformed escapes kept, UTF-8, dot check after decoding); in-process seam = string that Uri::path() yields",
+   "DESIGN.md section 4/C03"),
+ "C05": ("E2", "exploration",
+   "complete enumeration: 103 ranges x 12 versions membership (router and document), all 10609 ordered range pairs for the overlap verdict, all (a,b) for from_until ordering, header policy over max x header-state x value",
+   "Exhaustive over the stated domains (version points W = semver.org precedence example + neighbours, all four range kinds over W). Real register/lookup_route/openapi/request_extract_version compared with RefSemver/RefRange.",
+   "trusted: RefSemver/RefRange; crate semver as parser of header values only; build metadata excluded",
+   "DESIGN.md section 4/C05"),
 }
 
 NOT_YET = {
@@ -60,6 +70,7 @@ def main():
       },
       "engines": [
         {"name": "E1", "path": "harness/src/e1.rs + harness/src/bin/e1.rs", "serves_properties": ["C01","C02","C04"], "kind_free_text": "stateless explicit exploration of registration histories on the real ApiDescription/HttpRouter"},
+        {"name": "E2", "path": "harness/src/bin/c03.rs c05.rs ...", "serves_properties": ["C03","C05"], "kind_free_text": "bounded-exhaustive input enumeration against reference functions, on the real public functions"},
       ],
       "checks": checks,
       "not_applicable": na,
